@@ -143,12 +143,14 @@ import trees     # noqa: E402
 import modelrun  # noqa: E402
 from ref import oracle  # noqa: E402
 
-modelrun.register("rebuild", "map_pieces", "match_v1", "copypath", "safe_comp", "check_parts", "resolve", "checked_target")
+modelrun.register("rebuild", "map_pieces", "match_v1", "copypath", "safe_comp", "check_parts", "resolve", "checked_target",
+                  "extract", "matchv2", "safe_b", "utf8")
 
 TRUSTED_BASE = [
     "Coq 8.16.1 kernel; theorems closed under the global context; SHA-1 is an arbitrary function H1 in every theorem",
-    "hand-written models Model/Rebuild.v, Model/CopyPath.v, Model/PathSafe.v tied to rebuild.py / utils.copypath by "
-    "differential execution (extracted OCaml vs the real methods on the same inputs)",
+    "hand-written models Model/Rebuild.v, Model/RebuildMeta.v, Model/CopyPath.v, Model/PathSafe.v tied to rebuild.py / "
+    "utils.copypath by differential execution (extracted OCaml vs the real methods on the same inputs); Model/Bencode.v "
+    "pyloads stands for pyben.load (tied to pyben in C06); SHA-256 is an arbitrary function H256 in every theorem",
     "extraction: ExtrOcamlBasic, ExtrOcamlString; OCaml SHA-1 (ocaml/sha.ml, self-tested) and the glue of "
     "ocaml/areas/rebuild.ml (builds path nodes from ranges as PathNode(start, stop, **current) does) for the correspondence only",
     "reference verifier / encoder harness/ref/oracle.py (shares no code with /repo or pyben) judges the destination",
@@ -1035,3 +1037,335 @@ def check_parts_tie(ctx, model_ok, components, lists):
         if o != got:
             ctx.disagree("Model/PathSafe.v check_parts_model vs Metadata._check_parts", {"parts": list(l)}, o, got)
     ctx.case(key=("lists", len(lists)), classes=["validator tie: element lists"] * 1)
+
+
+# ================================================================ Metadata(metafile) / _match_v2 vs Model/RebuildMeta.v
+OP = oracle.OrderedPairs
+PLT = 16384
+TDATA = bytes((i * 11 + 7) % 256 for i in range(60))
+HOSTILE_KEYS = HOSTILE + ["/abs/x", "a/", "../../../x", "a\x00b", "\x00", "...", " ", "é", "..é", "a\\b", "\n", "x" * 300,
+                          b"\xff", b"a\xc3\x28", b"\xed\xa0\x80", b"\xc0\xaf", b"\xf4\x90\x80\x80", b"\xf0\x9f\x98\x80", b"\xe2\x82"]
+
+
+def _enc(c):
+    return c if isinstance(c, (bytes, int)) else c.encode("utf-8", "surrogateescape")
+
+
+def render_value(v):
+    """wire form of a decoded value, as ocaml/areas/rebuild.ml prints it"""
+    if v is None:
+        return "~"
+    if isinstance(v, bool):
+        return "b" + str(v)
+    if isinstance(v, int):
+        return "i%d" % v
+    if isinstance(v, str):
+        return "s" + v.encode("utf-8", "surrogateescape").hex()
+    if isinstance(v, (bytes, bytearray)):
+        return "s" + bytes(v).hex()
+    if isinstance(v, (list, tuple)):
+        return "l%d" % len(v)
+    if isinstance(v, dict):
+        return "d%d" % len(v)
+    return "?" + type(v).__name__
+
+
+def render_metadata(m):
+    """what Metadata(path) holds, in the wire form of `extract`: paths as pathlib parts"""
+    from pathlib import Path
+
+    def parts(x):
+        return hexlist([p for p in Path(str(x)).parts]) if not isinstance(x, (bytes, int)) else "?" + repr(x)
+    ents = []
+    for e in m.files:
+        fn = e["filename"]
+        ents.append(":".join([parts(e["path"]), parts(e["full"]), hx(fn) if isinstance(fn, (str, bytes)) else "?",
+                              str(e["length"]) if isinstance(e["length"], int) else "?" + repr(e["length"])[:20],
+                              render_value(e.get("root"))]))
+    return "|".join([hx(m.name), render_value(m.meta_version), render_value(m.piece_length), render_value(m.pieces),
+                     "1" if getattr(m, "is_file", False) else "0", ";".join(ents) or "-"])
+
+
+def _leaf(data, root=True):
+    d = OP([(b"length", len(data))])
+    if data and root:
+        d.append((b"pieces root", oracle.pieces_root(data)))
+    return OP([(b"", d)])
+
+
+def _tree_pairs(spec):
+    """spec: list of (key, bytes data | list spec) -> OrderedPairs file tree in the given order"""
+    return OP([(_enc(k), _leaf(v) if isinstance(v, (bytes, bytearray)) else _tree_pairs(v)) for k, v in spec])
+
+
+def v2_raw(name, spec, hybrid=False, tree=None):
+    """a v2 / hybrid metafile whose file tree is written exactly as given (any key order, any keys)"""
+    info = OP([(b"file tree", tree if tree is not None else _tree_pairs(spec)), (b"meta version", 2), (b"name", _enc(name)),
+               (b"piece length", PLT)])
+    if hybrid:
+        info.insert(0, (b"files", [OP([(b"length", len(TDATA)), (b"path", [b"a"])])]))
+        info.append((b"pieces", b"".join(oracle.v1_pieces(TDATA, PLT))))
+    return oracle.bencode_ordered(OP([(b"info", info)]))
+
+
+def _key_positions(spec, pre=()):
+    out = []
+    for i, (k, v) in enumerate(spec):
+        out.append(pre + (i,))
+        if not isinstance(v, (bytes, bytearray)):
+            out += _key_positions(v, pre + (i,))
+    return out
+
+
+def _replace_key(spec, pos, h):
+    out = []
+    for i, (k, v) in enumerate(spec):
+        if i == pos[0]:
+            if len(pos) == 1:
+                out.append((h, v))
+            else:
+                out.append((k, _replace_key(v, pos[1:], h)))
+        else:
+            out.append((k, v))
+    return out
+
+
+BASE_SPEC = [("d1", [("a", TDATA), ("s", [("t", [("b", TDATA)]), ("u", b"")]), ("z", TDATA[:7])]), ("d2", [("c", TDATA)]), ("e", TDATA)]
+REPLACEMENTS = [0, 2, -1, 1 << 70, b"", b"x", b"n", b"abc", b"a/b", b"..", b"\xff\xfe", "é".encode(), [], [b""], [b"a"], [b"a", b"b"],
+                [b"..", b"x"], [5], [[b"a"]], OP(), OP([(b"", OP([(b"length", 1)]))]), OP([(b"length", 3)]),
+                OP([(b"a", OP([(b"", OP([(b"length", 2), (b"pieces root", b"r" * 32)]))]))]), OP([(b"", 5)]), OP([(b"", b"x")]),
+                OP([(b"", [])]), OP([(b"", OP())]), OP([(b"", OP([(b"length", b"3")]))]), OP([(b"", OP([(b"length", 0), (b"pieces root", [])]))])]
+
+
+def _nodes(v, pre=()):
+    """all positions inside a decoded structure: a position is a tuple of indices; dict items have positions (i, 0|1)"""
+    out = [pre]
+    if isinstance(v, OP):
+        for i, (k, x) in enumerate(v):
+            out.append(pre + (i, 0))
+            out += _nodes(x, pre + (i, 1))
+    elif isinstance(v, list):
+        for i, x in enumerate(v):
+            out += _nodes(x, pre + (i,))
+    return out
+
+
+def _set(v, pos, new):
+    if not pos:
+        return new
+    if isinstance(v, OP):
+        i, which = pos[0], pos[1]
+        out = OP(v)
+        k, x = v[i]
+        out[i] = (_set(k, pos[2:], new) if which == 0 else k, x if which == 0 else _set(x, pos[2:], new))
+        return out
+    out = list(v)
+    out[pos[0]] = _set(v[pos[0]], pos[1:], new)
+    return out
+
+
+def _mutate(rng, v):
+    """one random change of shape: replace a node, drop / duplicate / reorder items of a dictionary, rename a key"""
+    nodes = _nodes(v)
+    for _ in range(20):
+        pos = rng.choice(nodes)
+        r = rng.random()
+        if len(pos) >= 2 and pos[-1] == 0 and isinstance(_get(v, pos[:-2]), OP):      # a key
+            if r < 0.5:
+                new = rng.choice([b"", b"x", b"length", b"path", b"files", b"name", b"..", b"a/b", b"\xff", b"pieces root", b"attr"])
+                return _set(v, pos, new), "key renamed"
+            continue
+        if r < 0.6:
+            new = rng.choice(REPLACEMENTS)
+            if isinstance(new, bytes) and rng.random() < 0.3:
+                new = _enc(rng.choice(HOSTILE_KEYS))
+            return _set(v, pos, new), "value replaced by " + type(new).__name__
+        target = _get(v, pos)
+        if isinstance(target, OP) and target:
+            d = OP(target)
+            if r < 0.75:
+                del d[rng.randrange(len(d))]
+                what = "key dropped"
+            elif r < 0.85:
+                d.append(d[rng.randrange(len(d))][:1] + (rng.choice(REPLACEMENTS),))
+                what = "key duplicated"
+            else:
+                rng.shuffle(d)
+                what = "keys reordered"
+            return _set(v, pos, d), what
+        if isinstance(target, list) and target:
+            l = list(target)
+            if r < 0.8:
+                del l[rng.randrange(len(l))]
+                return _set(v, pos, l), "list item dropped"
+            l.append(rng.choice(REPLACEMENTS))
+            return _set(v, pos, l), "list item added"
+    return v, "unchanged"
+
+
+def _get(v, pos):
+    for i, p in enumerate(pos):
+        if isinstance(v, OP):
+            if i + 1 >= len(pos):
+                return v[p]
+            v = v[p]
+        elif isinstance(v, tuple):
+            v = v[p]
+        else:
+            v = v[p]
+    return v
+
+
+def extract_corpus(ctx, tmp):
+    """list of (source class, label, raw metafile bytes)"""
+    rng = ctx.rng
+    quick = ctx.tier == "quick"
+    out = []
+    # (a) every creator of /repo and the reference encoder on generated payloads
+    for i, kind in enumerate((ALL_KINDS + ["v1", "ref1", "v1-align"]) * (1 if quick else 6)):
+        pl = rng.choice([16384, 32768])
+        name, single, tree, _ = gen_payload(rng, pl, i)
+        t = {"name": name, "single": single, "tree": tree, "pl": pl, "kind": kind}
+        try:
+            make_metafile(t, os.path.join(tmp, f"mk{i}"))
+        except Exception as e:  # noqa
+            ctx.broken.append(f"extract tie: could not create a {kind} metafile: {type(e).__name__}: {e}")
+            continue
+        out.append(("creator " + kind if not kind.startswith("ref") else "reference encoder", f"{kind} metafile of {name}", t["raw"]))
+        shutil.rmtree(os.path.join(tmp, f"mk{i}"), ignore_errors=True)
+    # (b) reference encoder: sibling sub-directories, three levels, empty files, single-file forms
+    files = [(("d1", "a"), TDATA), (("d1", "s", "t", "b"), TDATA), (("d1", "s", "u"), b""), (("d1", "z"), TDATA[:7]),
+             (("d2", "c"), TDATA), (("e",), TDATA)]
+    for version in (1, 2, 3):
+        out.append(("reference encoder", f"v{version} nested three deep with sibling directories", oracle.ref_metafile("n", files, PLT, version)))
+        out.append(("reference encoder", f"v{version} single file", oracle.ref_metafile("n", [((), TDATA)], PLT, version, single=True)))
+        out.append(("reference encoder", f"v{version} single empty file", oracle.ref_metafile("n", [((), b"")], PLT, version, single=True)))
+        out.append(("reference encoder", f"v{version} one file named like the torrent inside the directory",
+                    oracle.ref_metafile("n", [(("n",), TDATA)], PLT, version)))
+    # (c) the hostile metafiles of C19's end-to-end search (v1 path sequences, entries with extra keys, tree keys, names, other types)
+    from props import c19
+    for c in c19.gen_cases(ctx.tier, "/srv/abs_target", random.Random(rng.getrandbits(32))):
+        out.append(("C19 " + c["kind"], c["label"], c["raw"]))
+    # (d) file trees written key by key: every hostile element at every key position of a tree with sibling
+    #     sub-directories three levels deep (directory keys at depth 1, 2, 3; leaf keys at depth 1..4; first / later sibling)
+    positions = _key_positions(BASE_SPEC)
+    keys = HOSTILE_KEYS if not quick else HOSTILE_KEYS[:14] + HOSTILE_KEYS[-7:]
+    for h in keys:
+        for pos in positions:
+            for hybrid in ((False, True) if not quick or len(pos) == 1 else (rng.random() < 0.3,)):
+                spec = _replace_key(BASE_SPEC, pos, h)
+                isdir = not isinstance(_spec_at(spec, pos), (bytes, bytearray))
+                out.append(("tree keys", f"{'hybrid' if hybrid else 'v2'} tree {'directory' if isdir else 'leaf'} key {h!r} at depth {len(pos)}"
+                            f"{'' if pos[-1] == 0 else ', later sibling'}", v2_raw("n", spec, hybrid)))
+        out.append(("tree keys", f"v2 tree: empty directory called {h!r} after a file", v2_raw("n", [("ok", TDATA), (h, [])])))
+        out.append(("tree keys", f"v2 tree: key {h!r} inside a leaf node (never visited)",
+                    v2_raw("n", None, tree=OP([(b"f", OP([(b"", OP([(b"length", 3)])), (_enc(h), OP([(b"", OP([(b"length", 1)]))]))]))]))))
+        out.append(("names", f"v2 single-file form named {h!r}", v2_raw(h, [(h, TDATA)])))
+        out.append(("names", f"v2 tree under the name {h!r}", v2_raw(h, BASE_SPEC)))
+        for single in (False, True):
+            info = OP([(b"name", _enc(h)), (b"piece length", PLT), (b"pieces", b"".join(oracle.v1_pieces(TDATA, PLT)))])
+            info.append((b"length", len(TDATA)) if single else (b"files", [OP([(b"length", len(TDATA)), (b"path", [b"d", b"a"])])]))
+            out.append(("names", f"v1 {'single' if single else 'multi'}-file name {h!r}", oracle.bencode_ordered(OP([(b"info", info)]))))
+        info = OP([(b"name", b"n"), (b"piece length", PLT), (b"pieces", b""), (b"files", [
+            OP([(b"length", 1), (b"path", [b"ok"])]), OP([(b"attr", b"p"), (b"length", 2), (b"path", [b"d", _enc(h), b"x"])])])])
+        out.append(("v1 paths", f"v1: second entry (attr p) with element {h!r} in the middle", oracle.bencode_ordered(OP([(b"info", info)]))))
+    # single-file special case and its neighbours
+    for lab, tree in (("one key equal to the name, no leaf marker", OP([(b"n", OP([(b"x", _leaf(TDATA))]))])),
+                      ("one key equal to the name, leaf and further keys", OP([(b"n", OP([(b"x", _leaf(TDATA)), (b"", OP([(b"length", 4)]))]))])),
+                      ("two keys, the first equal to the name", OP([(b"n", _leaf(TDATA)), (b"m", _leaf(TDATA))])),
+                      ("one key different from the name", OP([(b"m", _leaf(TDATA))])),
+                      ("empty tree", OP()), ("empty directories only", OP([(b"d", OP([(b"e", OP())]))])),
+                      ("leaf without pieces root", OP([(b"n", _leaf(TDATA, root=False))])),
+                      ("pieces root an empty list", OP([(b"q", OP([(b"", OP([(b"length", 0), (b"pieces root", [])]))]))])),
+                      ("negative length", OP([(b"q", OP([(b"", OP([(b"length", -4)]))]))]))):
+        out.append(("single-file forms", "v2: " + lab, v2_raw("n", None, tree=tree)))
+    # v1 shapes: path given as a string, empty path, files as empty dict / string, neither files nor length
+    for lab, fields in (("path is a str", [(b"files", [OP([(b"length", 1), (b"path", "aé日".encode())])])]),
+                        ("path is a str with a dot", [(b"files", [OP([(b"length", 1), (b"path", b"a.b")])])]),
+                        ("path is an empty str", [(b"files", [OP([(b"length", 1), (b"path", b"")])])]),
+                        ("path is bytes", [(b"files", [OP([(b"length", 1), (b"path", b"a\xff")])])]),
+                        ("path is empty", [(b"files", [OP([(b"length", 1), (b"path", [])])])]),
+                        ("path is a dict", [(b"files", [OP([(b"length", 1), (b"path", OP([(b"a", 1)]))])])]),
+                        ("files is an empty dict", [(b"files", OP())]), ("files is an empty str", [(b"files", b"")]),
+                        ("files is a str", [(b"files", b"ab")]), ("files is a dict", [(b"files", OP([(b"a", 1)]))]),
+                        ("files is empty", [(b"files", [])]), ("neither files nor length", []),
+                        ("length and files", [(b"length", 5), (b"files", [OP([(b"length", 1), (b"path", [b".."])])])]),
+                        ("length is a str", [(b"length", b"5")]), ("pieces is an int", [(b"length", 5), (b"pieces", 7)]),
+                        ("pieces is a list", [(b"length", 5), (b"pieces", [1])]), ("meta version 3", [(b"length", 5), (b"meta version", 3)]),
+                        ("meta version a str", [(b"length", 5), (b"meta version", b"2")]),
+                        ("meta version 2 without file tree", [(b"length", 5), (b"meta version", 2)]),
+                        ("meta version 2, file tree a list", [(b"meta version", 2), (b"file tree", [b"n"])]),
+                        ("meta version 2, file tree a str", [(b"meta version", 2), (b"file tree", b"n")]),
+                        ("meta version 2, pieces an int", [(b"meta version", 2), (b"file tree", OP([(b"n", _leaf(TDATA))])), (b"pieces", 3)])):
+        for with_pl in (True, False) if lab == "neither files nor length" else (True,):
+            info = OP([(b"name", b"n")] + ([(b"piece length", PLT)] if with_pl else []) + fields)
+            out.append(("odd shapes", "v1: " + lab + ("" if with_pl else ", no piece length"), oracle.bencode_ordered(OP([(b"info", info)]))))
+    for lab, raw in (("top level a list", b"l4:infoe"), ("info a list", b"d4:infol1:aee"), ("info a str", b"d4:info4:namee"),
+                     ("no info", b"d1:ai1ee"), ("trailing bytes", oracle.ref_metafile("n", [((), TDATA)], PLT, 1, single=True) + b"junk"),
+                     ("not bencode", b"hello"), ("empty file", b"")):
+        out.append(("odd shapes", lab, raw))
+    # (e) random changes of shape applied to well-formed metafiles
+    bases = [oracle.bdecode_lenient(r) for s0, _l, r in out if s0.startswith("reference")]
+    for i in range(600 if quick else 12000):
+        v = rng.choice(bases)
+        whats = []
+        for _ in range(rng.choice([1, 1, 2, 3])):
+            v, w = _mutate(rng, v)
+            whats.append(w)
+        try:
+            raw = oracle.bencode_ordered(v)
+        except Exception:  # noqa
+            continue
+        out.append(("shape mutation", "; ".join(whats), raw))
+    return out
+
+
+def _spec_at(spec, pos):
+    k, v = spec[pos[0]]
+    return v if len(pos) == 1 else _spec_at(v, pos[1:])
+
+
+def extract_tie(ctx, model_ok):
+    """Metadata(metafile) -- name, meta_version, piece_length, pieces, is_file, per entry path/full/filename/length/root, or the
+       refusal with any exception -- vs the extracted metadata_of_bytes (pyloads + extract + __init__) on the same bytes"""
+    core.use_repo_in_process()
+    from torrentfile import rebuild as rb
+    lines, impl, labels = [], [], []
+    with core.Scratch("vc13x_") as tmp:
+        corpus = extract_corpus(ctx, tmp)
+        mf = os.path.join(tmp, "x.torrent")
+        seen = set()
+        for src, label, raw in corpus:
+            if raw in seen or len(raw) > 400000:
+                continue
+            seen.add(raw)
+            with open(mf, "wb") as fd:
+                fd.write(raw)
+            try:
+                m = rb.Metadata(mf)
+                got = render_metadata(m)
+                err = None
+            except Exception as e:  # noqa  every exception is a refusal
+                got, err = "none", type(e).__name__
+            lines.append((raw.hex(),))
+            impl.append((got, err))
+            labels.append((src, label))
+            cl = ["extract tie: " + src, "extract tie: " + ("refused with " + err if err else "accepted")]
+            if not err:
+                n = got.split("|")[5].count(";") + 1 if got.split("|")[5] != "-" else 0
+                cl.append("extract tie: accepted, " + ("no entry" if n == 0 else "one entry" if n == 1 else "several entries"))
+            ctx.case(key=("extract", hashlib.sha1(raw).hexdigest()), classes=cl, nontrivial=True,
+                     sample={"metafile": label, "Metadata": got[:300], "exception": err} if len(lines) == 40 else None)
+    if not model_ok:
+        return
+    outs = modelrun.run("extract", lines)
+    if outs is None:
+        ctx.broken.append("extracted model driver (extract) failed to run")
+        return
+    for l, o, (got, err), (src, label) in zip(lines, outs, impl, labels):
+        ctx.traces_validated += 1
+        if o != got:
+            ctx.disagree("Model/RebuildMeta.v metadata_of_bytes vs Metadata(metafile) (name|meta version|piece length|pieces|is_file|"
+                         "entries path:full:filename:length:root, or none = refused)",
+                         {"metafile": label, "source": src, "metafile_hex": l[0] if len(l[0]) < 1600 else l[0][:800] + "..."},
+                         o[:500], (got if not err else f"none ({err})")[:500])
